@@ -463,18 +463,113 @@ class Twin:
                 )
             elif name in ("save", "exit", "enter", "str"):
                 return self._file_op(op)
+            elif name == "emit":
+                a = self._emit(op)
             else:
                 raise RuntimeError(f"unknown abstract operation {name}")
         except Exception as e:  # noqa
             if isinstance(e, RuntimeError) and "unknown abstract operation" in str(e):
                 raise
             exc = e
+            if name == "emit":
+                a = self._a_pending
         post, cs = self.project(oplabel if isinstance(oplabel, str) else None)
         recs, prefix_ok, wlen = self.new_records(with_cp)
         ev = {"op": name, "a": a, "out": outcome_class(exc), "post": post, "recs": recs, "wprefix": prefix_ok, "wlen": wlen}
         extra["cs"] = cs
         ev.update(extra)
         return ev
+
+    # ------------------------------------------------------------------ low level emitters (C09)
+    @staticmethod
+    def _num_arg(n):
+        """number spec -> python value: {"cls": "int"|"float"|"nan"|"inf"|"ninf"|"str", "v": int}; float = v + 0.5"""
+        c = n["cls"]
+        if c == "int":
+            return int(n["v"])
+        if c == "float":
+            return n["v"] + 0.5
+        if c == "nan":
+            return float("nan")
+        if c == "inf":
+            return float("inf")
+        if c == "ninf":
+            return float("-inf")
+        return str(n["v"])
+
+    @staticmethod
+    def _milli(m):
+        """volume: an int = thousandths of a microlitre, or {"cls": "neg"|"nan"|"inf"|"cents", "v": n}"""
+        if isinstance(m, dict):
+            c = m["cls"]
+            if c == "nan":
+                return float("nan")
+            if c == "inf":
+                return float("inf")
+            if c == "neg":
+                return -abs(m["v"]) / 1000
+            return m["v"] / 100  # a large value given in hundredths
+        v = m / 1000
+        return int(v) if m % 1000 == 0 and (m // 1000) % 2 == 0 else v
+
+    @staticmethod
+    def _vol_log(m):
+        if isinstance(m, dict):
+            if m["cls"] == "cents":
+                return {"cls": "num", "m": -1, "c": int(m["v"])}
+            return {"cls": m["cls"], "m": -1, "c": -1}
+        return {"cls": "num", "m": int(m), "c": -1}
+
+    def _emit(self, op):
+        """Calls one low level emitter; returns the logged arguments (raises what the emitter raises)."""
+        wl = self.wl
+        fn = op["fn"]
+        g = op.get("args", {})
+        if fn == "comment":
+            c = g["text"]
+            a = {"fn": fn, "isnone": c is None, "sep": isinstance(c, str) and ";" in c,
+                 "lines": [ln.strip() for ln in c.split("\n")] if isinstance(c, str) and c else []}
+            self._pending = lambda: wl.comment(c)
+        elif fn == "wash":
+            a = {"fn": fn, "given": "scheme" in g, "n": {"cls": g["scheme"]["cls"], "v": g["scheme"]["v"]} if "scheme" in g else {"cls": "int", "v": 1}}
+            self._pending = (lambda: wl.wash(self._num_arg(g["scheme"]))) if "scheme" in g else (lambda: wl.wash())
+        elif fn in ("decontaminate", "flush", "commit"):
+            a = {"fn": fn}
+            self._pending = getattr(wl, fn)
+        elif fn == "set_diti":
+            a = {"fn": fn, "n": {"cls": g["idx"]["cls"], "v": g["idx"]["v"]}}
+            self._pending = lambda: wl.set_diti(self._num_arg(g["idx"]))
+        elif fn in ("aspirate_well", "dispense_well"):
+            kw = {k: v for k, v in g.items() if k in ("lc", "rackid", "racktype", "tube", "frt", "tip")}
+            a = {"fn": fn, "rack": text_arg(g["rack"]), "pos": {"cls": g["pos"]["cls"], "v": g["pos"]["v"]}, "vol": self._vol_log(g["vol"]),
+                 "kw": kw_log(kw)}
+            self._pending = lambda: getattr(wl, fn)(g["rack"], self._num_arg(g["pos"]), self._milli(g["vol"]), **kw_python(kw))
+        elif fn == "reagent_distribution":
+            ex = g.get("excl")
+            a = {"fn": fn, "srack": text_arg(g["srack"]), "drack": text_arg(g["drack"]),
+                 "s1": dict(g["s1"]), "s2": dict(g["s2"]), "d1": dict(g["d1"]), "d2": dict(g["d2"]),
+                 "vol": self._vol_log(g["vol"]), "reuse": dict(g.get("reuse", {"cls": "int", "v": 1})), "md": dict(g.get("md", {"cls": "int", "v": 1})),
+                 "hasexcl": ex is not None, "excl": list(ex or []), "lc": text_arg(g.get("lc", "")), "dir": g.get("dir", "left_to_right"),
+                 "sid": text_arg(g.get("sid", "")), "stype": text_arg(g.get("stype", "")), "did": text_arg(g.get("did", "")),
+                 "dtype": text_arg(g.get("dtype", ""))}
+            kw = {}
+            for k, py in (("reuse", "diti_reuse"), ("md", "multi_disp")):
+                if k in g:
+                    kw[py] = self._num_arg(g[k])
+            for k, py in (("lc", "liquid_class"), ("dir", "direction"), ("sid", "src_rack_id"), ("stype", "src_rack_type"),
+                          ("did", "dst_rack_id"), ("dtype", "dst_rack_type")):
+                if k in g:
+                    kw[py] = g[k]
+            if ex is not None:
+                kw["exclude_wells"] = list(ex) if g.get("exclform", "list") == "list" else set(ex)
+            self._pending = lambda: wl.reagent_distribution(g["srack"], self._num_arg(g["s1"]), self._num_arg(g["s2"]), g["drack"],
+                                                            self._num_arg(g["d1"]), self._num_arg(g["d2"]), volume=self._milli(g["vol"]), **kw)
+        else:
+            raise RuntimeError(f"unknown abstract operation emit/{fn}")
+        self._a_pending = a
+        call, self._pending = self._pending, None
+        call()
+        return a
 
     def _file_op(self, op):
         name = op["op"]
